@@ -98,6 +98,9 @@ func aesCTRXOR(key, inText, iv []byte) ([]byte, error) {
 	if err != nil {
 		return nil, err
 	}
+	if len(iv) != aesBlock.BlockSize() {
+		return nil, ErrDecrypt
+	}
 	stream := cipher.NewCTR(aesBlock, iv)
 	outText := make([]byte, len(inText))
 	stream.XORKeyStream(outText, inText)
@@ -108,6 +111,9 @@ func aesCBCDecrypt(key, cipherText, iv []byte) ([]byte, error) {
 	aesBlock, err := aes.NewCipher(key)
 	if err != nil {
 		return nil, err
+	}
+	if len(iv) != aesBlock.BlockSize() || len(cipherText)%aesBlock.BlockSize() != 0 {
+		return nil, ErrDecrypt
 	}
 	decrypter := cipher.NewCBCDecrypter(aesBlock, iv)
 	paddedPlaintext := make([]byte, len(cipherText))
